@@ -9,7 +9,8 @@ parse is kept) and `Parser::diagnoseFailedParseIfUndiagnosed` (run when parsing 
 namespace PsycheModel.ParseNet
 
 structure St where
-  diags : Nat := 0            -- `tree_->diagnostics().size()`
+  diags : Nat := 0            -- the diagnostics that count as a diagnosis of unparsed tokens: errors other than the four about where a
+                              -- statement stands (`case` outside a switch …) - all of `tree_->diagnostics()` until the fifth session
   failed : Option Nat := none -- `failedParseTkIdx_`
   bt : Nat := 0               -- live backtrackers: `willBacktrack()` is `bt > 0`
   deriving DecidableEq, Repr
